@@ -68,7 +68,9 @@ def scenarios(draw):
     trigger = draw(st.sampled_from(['stop', 'stop', 'cancel', 'crd-stream-error', 'served-stream-error', 'none']))
     return {'seed': draw(st.integers(0, 9999)), 'spec': spec, 'peering': peering, 'pre': pre, 'warmup': draw(st.sampled_from([0.0, 0.0, 0.2, 0.7, 2.0])),
             'actions': before, 'trigger': trigger, 'auto_restart': False,
-            'cluster': {'extra_resources': [{'gvp': list(CPEER), 'kind': 'ClusterKopfPeering', 'namespaced': False}]},
+            # (a slow API: the trigger may come while a request - e.g. the very first keep-alive of the peering - is applied but unanswered)
+            'cluster': {'extra_resources': [{'gvp': list(CPEER), 'kind': 'ClusterKopfPeering', 'namespaced': False}],
+                        'rsp_latency': draw(st.sampled_from([None, None, 0.5, 1.0]))},
             'op_kwargs': ({'standalone': False, 'peering_name': 'default', 'priority': 0} if peering else {})}
 
 
